@@ -2041,7 +2041,6 @@ static handler_t gw_write_request(gw_handler_ctx * const hctx, request_st * cons
         case -1:/* connection error */
             return HANDLER_ERROR;
         case 0: /* everything is ok, go on */
-            hctx->reconnects = 0;
             break;
         }
         __attribute_fallthrough__
